@@ -79,7 +79,8 @@ def main(argv):
             shutil.rmtree(wt, ignore_errors=True)
     shutil.rmtree(f"/var/tmp/seeded_ev_{os.getpid()}", ignore_errors=True)
     shutil.rmtree(f"/var/tmp/seeded_rp_{os.getpid()}", ignore_errors=True)
-    outp = os.path.join(seeded, f"RESULTS_{tier}{'_all' if all_checks else ('_related' if related else '')}.json")
+    vs = os.environ.get("VERIF_SEED", "0")
+    outp = os.path.join(seeded, f"RESULTS_{tier}{'_all' if all_checks else ('_related' if related else '')}{'' if vs == '0' else '_seed' + vs}.json")
     old = {}
     if os.path.exists(outp):
         old = json.load(open(outp))
